@@ -64,8 +64,14 @@ where
             return Ok(None);
         }
 
-        // Process all rows from child
+        // Read the whole input before inserting anything: a source that scans the target table
+        // (INSERT INTO t SELECT ... FROM t) would otherwise see the rows this statement inserts and never end.
+        let mut rows = Vec::new();
         while let Some(row) = self.child.next()? {
+            rows.push(row);
+        }
+
+        for row in rows {
             self.stats.rows_scanned += 1;
 
             let mut dml = DmlExecutor::new(self.ctx.clone(), self.logger.clone());
